@@ -37,7 +37,7 @@ theorem sie_only_inside_window (cfg : Cfg) (t0 : Int) (req : Req) (e : Entry) (k
     (mv : Bool) (ans : OriginAns) (tr : List Step) (x : Resp)
     (hs : e.resp.status ≠ 304) (hT : TimesOK e) (h0 : (parseCC req.header).maxAge ≠ some 0)
     (hle : ∀ r t1 b, ans = .resp r t1 b → t0 ≤ t1) (hle' : ∀ t1, ans = .err t1 → t0 ≤ t1)
-    (h : Run (handleValidation cfg sGET (withConditional req.header e.resp.header) key e refs ri
+    (h : Run (handleValidation cfg sGET req.header key e refs ri
         (calculateFreshness cfg.glue t0 e (parseCC req.header) (parseCC e.resp.header)) (parseCC req.header) mv t0 ans
         (fun r => .ret r)) tr (.resp x))
     (hstale : Header.get x.header sStatusHeader = CacheStatus.stale.value) :
@@ -100,7 +100,7 @@ theorem sie_serves (cfg : Cfg) (t0 t1 : Int) (req : Req) (e : Entry) (key : Str)
     (n : Int) (hn : Spec.directiveSeconds modelReader e.resp.header (str% "stale-if-error") = some n ∨
           Spec.directiveSeconds modelReader req.header (str% "stale-if-error") = some n)
     (hw : Spec.withinWindow modelReader cfg.glue.parseTime (Spec.storedOfEntry e) t1 n = true) :
-    ∃ x, Run (handleValidation cfg sGET (withConditional req.header e.resp.header) key e refs ri
+    ∃ x, Run (handleValidation cfg sGET req.header key e refs ri
         (calculateFreshness cfg.glue t0 e (parseCC req.header) (parseCC e.resp.header)) (parseCC req.header) false t0 ans
         (fun r => .ret r)) [] (.resp x) ∧
       x.status = e.resp.status ∧ x.body = e.resp.body ∧
